@@ -523,6 +523,61 @@ def fam_evo(c, tier, rng):
     c.module(mod, L)
 
 
+# positive examples for rule X5 (shared state on save / load paths): the library has no such state, so the rule proves on every run
+# that it still recognises the two flawed patterns and accepts the two correct ones. Never executed.
+SELFTEST_STATE = '''
+pub mod selftest_state {
+    #![allow(warnings)]
+    use std::cell::{Cell, RefCell};
+    use std::collections::HashMap;
+    thread_local! {
+        static MEMO_A: RefCell<HashMap<u32, u64>> = RefCell::new(HashMap::new());
+        static MEMO_B: RefCell<HashMap<(u32, u32), u64>> = RefCell::new(HashMap::new());
+        static DEPTH_A: Cell<usize> = Cell::new(0);
+        static DEPTH_B: Cell<usize> = Cell::new(0);
+    }
+    fn expensive(id: u32, version: u32) -> u64 { (id as u64) << version }
+    /// flawed on purpose: the key omits `version`
+    pub fn memo_underkeyed(id: u32, version: u32) -> u64 {
+        if let Some(v) = MEMO_A.with(|m| m.borrow().get(&id).cloned()) {
+            return v;
+        }
+        let v = expensive(id, version);
+        MEMO_A.with(|m| m.borrow_mut().insert(id, v));
+        v
+    }
+    pub fn memo_fully_keyed(id: u32, version: u32) -> u64 {
+        let key = (id, version);
+        if let Some(v) = MEMO_B.with(|m| m.borrow().get(&key).cloned()) {
+            return v;
+        }
+        let v = expensive(id, version);
+        MEMO_B.with(|m| m.borrow_mut().insert(key, v));
+        v
+    }
+    /// flawed on purpose: the counter stays raised when `?` leaves
+    pub fn counter_leaks(x: Result<u32, ()>) -> Result<u32, ()> {
+        DEPTH_A.with(|d| d.set(d.get() + 1));
+        let v = x?;
+        DEPTH_A.with(|d| d.set(d.get() - 1));
+        Ok(v)
+    }
+    struct DepthGuard {}
+    impl Drop for DepthGuard {
+        fn drop(&mut self) {
+            DEPTH_B.with(|d| d.set(d.get() - 1));
+        }
+    }
+    pub fn counter_guarded(x: Result<u32, ()>) -> Result<u32, ()> {
+        DEPTH_B.with(|d| d.set(d.get() + 1));
+        let _guard = DepthGuard {};
+        let v = x?;
+        Ok(v)
+    }
+}
+'''
+
+
 def main():
     ap = argparse.ArgumentParser()
     ap.add_argument("--tier", default="quick")
@@ -535,6 +590,7 @@ def main():
     fam_evo(c, a.tier, rng)
     abi = os.path.join(os.path.dirname(os.path.abspath(__file__)), "abi_family.rs")
     src = "#![allow(warnings)]\n// GENERATED by /verif/corpus/gen.py -- compiled under the analysis driver only, never executed\n" + "\n".join(c.src) + "\n"
+    src += SELFTEST_STATE
     if os.path.exists(abi):
         src += open(abi).read()
         meta_abi = os.path.join(os.path.dirname(os.path.abspath(__file__)), "abi_family.json")
